@@ -101,7 +101,7 @@ Lemma process_ok_L : forall n c b st',
   wf_chain n -> from_g n -> incl n B -> wf_chain c -> from_g c -> incl c B ->
   In b B -> b <> g ->
   process p true own n (L p own c) b = Ok st' ->
-  exists c', wf_chain c' /\ from_g c' /\ incl c' B /\ st' = L p own c'.
+  exists c', wf_chain c' /\ from_g c' /\ incl c' B /\ (incl c' n \/ incl c' c) /\ st' = L p own c'.
 Proof.
   intros n c b st' Hwfn Hgn HnB Hwfc Hgc HcB HbB Hbg Hproc.
   assert (Hon_node : forall nb, In nb n -> b_id nb = b_id b -> In b n).
@@ -132,20 +132,22 @@ Proof.
                (ids_agree_B _ _ HcB HnB) Hn Hne) in Hproc.
     inversion Hproc as [Hst]. exists (n1 ++ [b]).
     assert (Hn' : n = (n1 ++ [b]) ++ n2). { rewrite Hn, <- app_assoc. reflexivity. }
-    split; [|split; [|split]].
+    split; [|split; [|split; [|split]]].
     + rewrite Hn' in Hwfn. apply (wf_chain_prefix _ _ Hwfn). destruct n1; discriminate.
     + destruct Hgn as [n' Hgn]. rewrite Hn in Hgn. destruct n1 as [|z n1']; [contradiction|].
       cbn [app] in Hgn. inversion Hgn. exists (n1' ++ [b]). reflexivity.
     + intros z Hz. apply HnB. rewrite Hn'. apply in_or_app. left. assumption.
+    + left. intros z Hz. rewrite Hn'. apply in_or_app. left. assumption.
     + reflexivity.
   - exists (c1 ++ [b]).
     assert (Hc' : c = (c1 ++ [b]) ++ c2). { rewrite Hc, <- app_assoc. reflexivity. }
-    split; [|split; [|split]].
+    split; [|split; [|split; [|split]]].
     + rewrite Hc' in Hwfc. apply (wf_chain_prefix _ _ Hwfc). destruct c1; discriminate.
     + destruct Hgc as [c' Hgc]. rewrite Hc in Hgc. destruct c1 as [|z c1'].
       * cbn [app] in Hgc. inversion Hgc. contradiction.
       * cbn [app] in Hgc. inversion Hgc. exists (c1' ++ [b]). reflexivity.
     + intros z Hz. apply HcB. rewrite Hc'. apply in_or_app. left. assumption.
+    + right. intros z Hz. rewrite Hc'. apply in_or_app. left. assumption.
     + assumption.
 Qed.
 
@@ -177,9 +179,10 @@ Proof.
     unfold process_or_keep. rewrite Hown. fold own.
     destruct (process p true own (s_node s) (s_wallet s) b) as [st'|err] eqn:Hproc.
     + rewrite Hst in Hproc.
-      apply (process_ok_L (s_node s) c b st'); try assumption.
+      destruct (process_ok_L (s_node s) c b st') as [c' [H1 [H2 [H3 [_ H4]]]]]; try assumption.
       * apply HeB. right. reflexivity.
       * intros Hbg. apply Hng. rewrite Hbg. reflexivity.
+      * exists c'. tauto.
     + exists c. tauto.
   - (* query *)
     cbn [step s_node s_wallet s_own] in *. unfold Inv. cbn [s_node s_wallet s_own].
